@@ -43,6 +43,10 @@ def run(prog: Program, rep: Report, tier: str):
     # the public log_prob hands the change-of-variables value through unchanged (only NaN -> -inf): -inf stays -inf
     from .c05 import rule_nan
     rule_nan(prog, rep, "C03.public")
+    # ... and reaches the core through the vectoriser with x cast to float (integer input would otherwise be carried
+    # through scatter-based bijections and truncated)
+    from .c06 import rule_public_lift
+    rule_public_lift(prog, rep, "C03.public")
     rule_factories(prog, rep)
     rule_flow_bijections(prog, rep, "C03")
     rule_numpyro(prog, rep)
